@@ -105,6 +105,35 @@ func builtIPv4Options(r *vlib.Rand) []layers.IPv4Option {
 }
 
 func builtTLVs(r *vlib.Rand) (hbh []*layers.IPv6HopByHopOption, dst []*layers.IPv6DestinationOption) {
+	if r.Chance(1, 5) {
+		// long headers: the length field counts 8-byte units in 8 bits, so headers of 248..2048 bytes exist; totals are
+		// placed around 256 bytes (one option of 240..255 data bytes, or several) and anywhere up to the maximum
+		lens := func() []int {
+			switch r.Intn(3) {
+			case 0:
+				return []int{r.Range(236, 255)}
+			case 1:
+				return []int{r.Range(100, 130), r.Range(100, 130), r.Intn(14)}
+			}
+			var out []int
+			for total := 0; total < r.Range(300, 2000); {
+				l := r.Intn(256)
+				out = append(out, l)
+				total += l + 2
+			}
+			for sum(out)+2*len(out) > 2030 {
+				out = out[1:]
+			}
+			return out
+		}
+		for _, l := range lens() {
+			hbh = append(hbh, &layers.IPv6HopByHopOption{OptionType: uint8(r.Range(2, 60)), OptionLength: uint8(l), ActualLength: l + 2, OptionData: r.Bytes(l)})
+		}
+		for _, l := range lens() {
+			dst = append(dst, &layers.IPv6DestinationOption{OptionType: uint8(r.Range(2, 60)), OptionLength: uint8(l), ActualLength: l + 2, OptionData: r.Bytes(l)})
+		}
+		return
+	}
 	for n := r.Range(1, 4); n > 0; n-- {
 		l := r.Intn(14) // all residues of the total length mod 8 come up
 		hbh = append(hbh, &layers.IPv6HopByHopOption{OptionType: uint8(r.Range(2, 60)), OptionLength: uint8(l), ActualLength: l + 2, OptionData: r.Bytes(l)})
@@ -112,6 +141,13 @@ func builtTLVs(r *vlib.Rand) (hbh []*layers.IPv6HopByHopOption, dst []*layers.IP
 	for n := r.Range(1, 4); n > 0; n-- {
 		l := r.Intn(14)
 		dst = append(dst, &layers.IPv6DestinationOption{OptionType: uint8(r.Range(2, 60)), OptionLength: uint8(l), ActualLength: l + 2, OptionData: r.Bytes(l)})
+	}
+	return
+}
+
+func sum(x []int) (n int) {
+	for _, v := range x {
+		n += v
 	}
 	return
 }
@@ -219,6 +255,13 @@ func builtStack(r *vlib.Rand) (ls []gopacket.SerializableLayer, payload []byte, 
 		v6 = true
 		jumboOK = !tunnel
 		hbh, dst := builtTLVs(r)
+		long := 0
+		for _, o := range hbh {
+			long += o.ActualLength
+		}
+		if long > 100 {
+			size = min(size, 30000) // long extension headers: stay clear of the 64 KiB datagram limits, which are another tier
+		}
 		if r.Chance(1, 3) {
 			h := &layers.IPv6HopByHop{Options: hbh}
 			setProto(layers.IPProtocolIPv6HopByHop)
@@ -237,7 +280,12 @@ func builtStack(r *vlib.Rand) (ls []gopacket.SerializableLayer, payload []byte, 
 		}
 		if r.Chance(1, 5) {
 			h := &layers.IPv6Routing{RoutingType: 0, SegmentsLeft: uint8(r.Intn(3)), Reserved: []byte{0, 0, 0, 0}}
-			for k := r.Range(1, 3); k > 0; k-- {
+			k := r.Range(1, 3)
+			if r.Chance(1, 4) {
+				k = r.Range(14, 40) // 16 addresses make a 264-byte header
+				size = min(size, 30000)
+			}
+			for ; k > 0; k-- {
 				h.SourceRoutingIPs = append(h.SourceRoutingIPs, rIP6(r))
 			}
 			setProto(layers.IPProtocolIPv6Routing)
@@ -303,6 +351,13 @@ func builtStack(r *vlib.Rand) (ls []gopacket.SerializableLayer, payload []byte, 
 			size = []int{65536, 65537, 70001}[r.Intn(3)] // jumbogram: the IPv6 serializer adds the hop-by-hop option itself
 			want = append(want[:len(want)-1], "IPv6HopByHop", "TCP")
 			desc = "tcp-jumbo"
+			if r.Bool() {
+				// the caller's own hop-by-hop options (short or long) carried in the IPv6 layer: the jumbo option joins them
+				hbh, _ := builtTLVs(r)
+				nl.(*layers.IPv6).HopByHop = &layers.IPv6HopByHop{Options: hbh}
+				nl.(*layers.IPv6).HopByHop.NextHeader = layers.IPProtocolTCP
+				desc = "tcp-jumbo-own-options"
+			}
 		}
 	case k <= 3:
 		u := &layers.UDP{SrcPort: layers.UDPPort(r.Range(20000, 28000)), DstPort: layers.UDPPort(r.Range(20000, 28000))}
